@@ -16,7 +16,7 @@ LEVEL = "exploration"
 RULE = ("random consumer sequences (length 1-10, repeated and reordered, producers shared between lists) over pools of finished "
         "results; every built-in command of the CSV and NetCDF library sets is a consumer; distinct by (library set, rank, sequence "
         "of consumer command names up to 4, list arities)")
-REQUIRED_COUNTERS = ["digest_rechecks", "consumer_executions", "results_watched", "model_runs", "nonfinite_fields_watched", "large_rasters_watched", "file_reads_in_sequences"]
+REQUIRED_COUNTERS = ["digest_rechecks", "consumer_executions", "results_watched", "model_runs", "nonfinite_fields_watched", "large_rasters_watched", "file_reads_in_sequences", "program_copies_checked"]
 ASSUMPTIONS = ["values stored under the mask are excluded from the digest", "NaN / infinite cells are compared by their bits"]
 
 
@@ -293,6 +293,29 @@ def run_case(ctx, case):
         elif not out.ok:
             ctx.dontcare("%s raises %s" % (cmd, out.inner() or out.err))
             prog.commands.pop(name, None)
+    if case["rseed"] % 3 == 1:
+        # copying / pickling the program is not a reason for a result to change either (and the copy holds the same results)
+        import copy
+        import pickle
+        ctx.count("program_copies_checked")
+        try:
+            clone = copy.deepcopy(prog)
+        except Exception as e:
+            clone = None
+            ctx.dontcare("program cannot be deep-copied: %s" % type(e).__name__)
+        try:
+            pickle.dumps(prog.commands[sorted(recorded)[0]]) if recorded else None
+        except Exception:
+            pass        # whether commands can be pickled at all is not stated anywhere
+        now = _digests(prog)
+        ctx.count("digest_rechecks", len(recorded))
+        for rn, dg in recorded.items():
+            if now.get(rn) != dg:
+                ctx.fail("copy-or-pickle-of-the-program:changes-a-result", {"changed_result": rn, "now": arr.describe(prog.commands[rn]._result, 8) if isinstance(prog.commands[rn]._result, numpy.ndarray) else repr(prog.commands[rn]._result)})
+                return
+            if clone is not None and arr.digest(clone.commands[rn]._result) != dg:
+                ctx.fail("copy-of-the-program:holds-another-result", {"result": rn, "in_copy": repr(clone.commands[rn]._result)[:120]})
+                return
     ctx.count("results_watched", len(recorded))
     ctx.feature((libs, len(shape), tuple(seqnames[:4])))
     if len(ctx.samples) < 4:
